@@ -561,3 +561,109 @@ pub fn compare_validated_file(file: &kiki::data::validated_file::File, src: &str
     }
     Ok(())
 }
+
+// ---------------------------------------------------------------------------
+// Reference AST -> grammar model (for using arbitrary valid Kiki files as corpus)
+
+pub fn to_model(items: &[RItem]) -> Result<crate::model::Model, String> {
+    use crate::model::*;
+    let nts_items: Vec<&RItem> = items.iter().filter(|i| matches!(i, RItem::Struct { .. } | RItem::Enum { .. })).collect();
+    let nt_index = |n: &str| nts_items.iter().position(|i| match i {
+        RItem::Struct { name, .. } | RItem::Enum { name, .. } => name.name == n,
+        _ => false,
+    });
+    let term_item = items.iter().find(|i| matches!(i, RItem::Terminal { .. })).ok_or("no terminal declaration")?;
+    let RItem::Terminal { attrs: tattrs, name: tname, variants: tvariants } = term_item else { unreachable!() };
+    let t_index = |n: &str| tvariants.iter().position(|(v, _)| v.name == n);
+    fn ty(t: &RType) -> TypeExpr {
+        match t {
+            RType::Unit => TypeExpr::Unit,
+            RType::Path(p) => TypeExpr::Path(p.iter().map(|s| s.name.clone()).collect()),
+            RType::Generic(p, a) => TypeExpr::Generic(p.iter().map(|s| s.name.clone()).collect(), a.iter().map(ty).collect()),
+        }
+    }
+    let conv_fs = |fs: &RFieldset, vname: &str| -> Result<Prod, String> {
+        let style = match fs {
+            RFieldset::Empty => Style::Empty,
+            RFieldset::Named(_) => Style::Named,
+            RFieldset::Tuple(_) => Style::Tuple,
+        };
+        let mut fields = vec![];
+        for f in fs.fields() {
+            let sym = match &f.sym {
+                RSym::N(i) => Sym::N(nt_index(&i.name).ok_or_else(|| format!("undefined nonterminal {}", i.name))?),
+                RSym::T(i) => Sym::T(t_index(&i.name).ok_or_else(|| format!("undefined terminal {}", i.name))?),
+            };
+            fields.push(Field {
+                sym,
+                used: !f.skipped,
+                name: f.name.as_ref().map(|n| n.name.clone()).unwrap_or_default(),
+            });
+        }
+        Ok(Prod { name: vname.to_string(), style, fields })
+    };
+    let mut nts = vec![];
+    for it in &nts_items {
+        match it {
+            RItem::Struct { attrs, name, fieldset } => nts.push(Nt {
+                name: name.name.clone(),
+                is_enum: false,
+                prods: vec![conv_fs(fieldset, &name.name)?],
+                attrs: attrs.iter().map(|a| a.src.clone()).collect(),
+            }),
+            RItem::Enum { attrs, name, variants } => {
+                let mut prods = vec![];
+                for (vn, fs) in variants {
+                    prods.push(conv_fs(fs, &vn.name)?);
+                }
+                nts.push(Nt { name: name.name.clone(), is_enum: true, prods, attrs: attrs.iter().map(|a| a.src.clone()).collect() });
+            }
+            _ => unreachable!(),
+        }
+    }
+    let start_name = items.iter().find_map(|i| if let RItem::Start(s) = i { Some(s.name.clone()) } else { None }).ok_or("no start")?;
+    let start = nt_index(&start_name).ok_or("undefined start")?;
+    // positions of `start` / `terminal` relative to the nonterminal declarations
+    let mut seen_nts = 0;
+    let mut start_pos = 0;
+    let mut term_pos = 0;
+    for it in items {
+        match it {
+            RItem::Start(_) => start_pos = seen_nts,
+            RItem::Terminal { .. } => term_pos = seen_nts,
+            _ => seen_nts += 1,
+        }
+    }
+    Ok(Model {
+        nts,
+        terms: tvariants.iter().map(|(n, t)| Term { name: n.name.clone(), ty: ty(t) }).collect(),
+        term_enum: tname.name.clone(),
+        term_attrs: tattrs.iter().map(|a| a.src.clone()).collect(),
+        start,
+        start_pos,
+        term_pos,
+    })
+}
+
+/// The example grammars shipped with the repository (read at run time from /repo).
+pub fn repo_example_sources() -> Vec<(String, String)> {
+    let mut out = vec![];
+    let root = std::env::var("KV_REPO").unwrap_or_else(|_| "/repo".to_string());
+    let mut paths = vec![format!("{root}/kiki/src/parser.kiki")];
+    if let Ok(rd) = std::fs::read_dir(format!("{root}/kiki/src/examples")) {
+        let mut ex: Vec<String> = rd
+            .filter_map(|e| e.ok())
+            .map(|e| e.path())
+            .filter(|p| p.extension().map(|x| x == "kiki").unwrap_or(false))
+            .map(|p| p.to_string_lossy().to_string())
+            .collect();
+        ex.sort();
+        paths.extend(ex);
+    }
+    for p in paths {
+        if let Ok(s) = std::fs::read_to_string(&p) {
+            out.push((p, s));
+        }
+    }
+    out
+}
